@@ -17,6 +17,12 @@ DAY_MS = 86400000
 FNAMES = ["app.log", "app", "a+b(1).log", "my.app.log"]
 
 
+def ascii_digits(s):
+    """any Unicode decimal digit -> ASCII (rotated names carry the date in the system locale's digits)"""
+    import unicodedata
+    return "".join(str(unicodedata.digit(c)) if c.isdigit() and not c.isascii() else c for c in s)
+
+
 def split_name(fname):
     """Qt completeBaseName / suffix"""
     if "." in fname:
@@ -58,12 +64,13 @@ class History:
         self.start_ms = 0
         self.real = False
         self.tz = "UTC"
+        self.loc = ""           # Qt system locale ("" = C.UTF-8); e.g. fa_IR.UTF-8 has non-ASCII native digits
         self.ops = []          # tuples: ("W", id, text, lag) ("ADV", ms) ("RESTART",) ("FLUSH",) ("FOREIGN", name, bytes) ("MKDIR", name) ("MIDNIGHT", k)
         self.tags = set()
 
     def config(self):
         return {"L": self.L, "N": self.N, "options": self.options, "fname": self.fname, "gran_ns": self.gran_ns,
-                "autoobs": self.autoobs, "start_ms": self.start_ms, "real": self.real, "tz": self.tz}
+                "autoobs": self.autoobs, "start_ms": self.start_ms, "real": self.real, "tz": self.tz, "loc": self.loc}
 
     def to_json(self):
         ops = []
@@ -189,6 +196,8 @@ def gen_history(rnd, profile):
     h.start_ms = int(base_day + rnd.randrange(0, 500) * DAY_MS + rnd.randrange(0, DAY_MS))
     if rnd.random() < profile.get("tz_p", 0.3):
         h.tz = rnd.choice(sorted(TZ_CHOICES))
+    if rnd.random() < profile.get("loc_p", 0.12):
+        h.loc = rnd.choice(["fa_IR.UTF-8", "ar_EG.UTF-8", "ne_NP.UTF-8", "de_DE.UTF-8", "ja_JP.UTF-8"])
     if rnd.random() < 0.15:
         # close to (local) midnight
         off_ms = TZ_CHOICES[h.tz] * 1000
@@ -263,7 +272,7 @@ def run_history(ctx, h, flavour="san", idx=0, keep_dir=False):
     trace = os.path.join(d, "trace.jsonl")
     with open(script, "w") as f:
         f.write(h.script(os.path.join(d, "logs")))
-    env = core.base_env(ctx.tmp, tz=getattr(h, "tz", "UTC"))
+    env = core.base_env(ctx.tmp, tz=getattr(h, "tz", "UTC"), qt_locale=getattr(h, "loc", "") or None)
     try:
         p = subprocess.run([exe, script, trace], env=env, stdout=subprocess.PIPE, stderr=subprocess.PIPE, timeout=300)
         rc, err = p.returncode, p.stderr.decode("utf-8", "replace")
@@ -707,7 +716,7 @@ class Analysis:
                     sfx = ":restart-adopts-late-mtime" if self.adopted_ids & set(ids) else ""
                     self.add("C09", "C09:mixed-days" + sfx, "%s holds records of days %s (ids %s)" % (nm, days, ids[:6]), op)
             elif ent is not None:
-                nd = self.rx.match(nm).group(1)
+                nd = ascii_digits(self.rx.match(nm).group(1))
                 k = (nm, "date")
                 if nd != days[0] and k not in self._reported_days:
                     self._reported_days.add(k)
@@ -717,7 +726,7 @@ class Analysis:
         last = {}
         for ent in self.entries:
             m = self.rx.match(ent["orig"])
-            d, i = m.group(1), int(m.group(2))
+            d, i = ascii_digits(m.group(1)), int(m.group(2))
             if d in last and i <= last[d]:
                 k = (ent["orig"], "index")
                 if k not in self._reported_days:
